@@ -79,6 +79,7 @@ type FuncInfo struct {
 	Outer   *FuncInfo // enclosing function for literals
 	Pos     token.Pos
 	RecvObj *types.Var
+	SpecKey string // contract key used when no contract is keyed by Key: "<fn>.<param>" for a literal passed as that argument
 }
 
 func (f *FuncInfo) Type() *ast.FuncType {
@@ -223,6 +224,31 @@ func (u *Unit) indexFuncs() {
 
 func (u *Unit) indexLits(outer *FuncInfo) {
 	ast.Inspect(outer.Body, func(n ast.Node) bool {
+		if call, ok := n.(*ast.CallExpr); ok {
+			// function literal passed as the k-th argument of a call: "<outer>.$arg<k>"; when the callee is a function of this
+			// package, the literal has to satisfy the contract of that function-typed parameter, keyed "<callee>.<param>"
+			for k, a := range call.Args {
+				fl, ok := a.(*ast.FuncLit)
+				if !ok {
+					continue
+				}
+				key := fmt.Sprintf("%s.$arg%d", outer.Name, k)
+				if _, dup := u.Funcs[key]; dup {
+					u.Refused[key] = "more than one function literal passed as argument " + fmt.Sprint(k)
+					continue
+				}
+				fi := &FuncInfo{Key: key, Name: fmt.Sprintf("$arg%d", k), Lit: fl, Sig: u.Info.Types[fl].Type.(*types.Signature), Body: fl.Body, Outer: outer, Pos: fl.Pos()}
+				if id, ok := unparen(call.Fun).(*ast.Ident); ok {
+					if fn, ok := u.Info.Uses[id].(*types.Func); ok && fn.Pkg() == u.Pkg.Types {
+						if sig := fn.Type().(*types.Signature); k < sig.Params().Len() && !sig.Variadic() {
+							fi.SpecKey = fn.Name() + "." + sig.Params().At(k).Name()
+						}
+					}
+				}
+				u.Funcs[key] = fi
+			}
+			return true
+		}
 		as, ok := n.(*ast.AssignStmt)
 		if !ok || len(as.Lhs) != len(as.Rhs) {
 			return true
@@ -450,6 +476,10 @@ func (u *Unit) preludeText() string {
 	sb.WriteString("(declare-fun str_len (Str) Int)\n(declare-fun str_rlen (Str) Int)\n(declare-fun str_runes (Str) (Array Int Int))\n")
 	sb.WriteString("(declare-fun str_of_runes ((Array Int Int) Int Int) Str)\n(declare-fun str_cat (Str Str) Str)\n(declare-fun str_lit (Int) Str)\n(declare-fun str_of_rune (Int) Str)\n")
 	sb.WriteString("(assert (forall ((s Str)) (! (and (>= (str_rlen s) 0) (>= (str_len s) (str_rlen s))) :pattern ((str_rlen s)))))\n")
+	// byte length: never negative, 0 for the empty string, additive under concatenation
+	sb.WriteString("(assert (= (str_len str_empty) 0))\n(assert (= (str_rlen str_empty) 0))\n")
+	sb.WriteString("(assert (forall ((s Str)) (! (>= (str_len s) 0) :pattern ((str_len s)))))\n")
+	sb.WriteString("(assert (forall ((a Str) (b Str)) (! (= (str_len (str_cat a b)) (+ (str_len a) (str_len b))) :pattern ((str_cat a b)))))\n")
 	sb.WriteString("(assert (forall ((s Str) (i Int)) (! (and (<= 0 (select (str_runes s) i)) (<= (select (str_runes s) i) 1114111)) :pattern ((select (str_runes s) i)))))\n")
 	if u.MaxUConst {
 		sb.WriteString("(declare-const maxU Int)\n(assert (or (= maxU 255) (= maxU 65535) (= maxU 4294967295) (= maxU 18446744073709551615)))\n")
@@ -517,6 +547,9 @@ func (u *Unit) paramSort(p ParamDecl) Sort {
 			return SBool
 		case "runes", "ints":
 			return arr(SInt, SInt)
+		case "tokarr":
+			u.ensureSort("DT_token")
+			return arr(SInt, "DT_token")
 		case "string", "str":
 			return SStr
 		}
@@ -529,14 +562,46 @@ func (u *Unit) paramSort(p ParamDecl) Sort {
 	return SInt
 }
 
+// lookupTypeName finds a named type by its bare name: in the package itself, then in its direct imports (a heap struct of
+// an imported package, such as the embedded *tree.Tree, is designated by its bare name in cell names).
+func (u *Unit) lookupTypeName(name string) *types.TypeName {
+	if obj, ok := u.Pkg.Types.Scope().Lookup(name).(*types.TypeName); ok {
+		return obj
+	}
+	for _, imp := range u.Pkg.Types.Imports() {
+		if obj, ok := imp.Scope().Lookup(name).(*types.TypeName); ok && u.heapStruct[name] {
+			return obj
+		}
+	}
+	return nil
+}
+
 // cellSortByName: sort of the heap cell named Type.field (real or ghost field).
 func (u *Unit) cellSortByName(name string) Sort {
+	switch {
+	case strings.HasPrefix(name, "Elems."):
+		u.ensureSort(Sort(name[6:]))
+		return arr(SInt, arr(SInt, Sort(name[6:])))
+	case strings.HasPrefix(name, "MapDom."), strings.HasPrefix(name, "MapVal."):
+		kv := name[7:]
+		i := strings.Index(kv, "!")
+		ks, vs := Sort(kv[:i]), Sort(kv[i+1:])
+		u.ensureSort(ks)
+		u.ensureSort(vs)
+		if strings.HasPrefix(name, "MapDom.") {
+			return arr(SInt, arr(ks, SBool))
+		}
+		return arr(SInt, arr(ks, vs))
+	}
 	k := strings.Index(name, ".")
 	if gs, ok := u.CS.GhostFields[name]; ok {
 		return arr(SInt, ghostSort(gs))
 	}
+	if strings.HasPrefix(name, "Ptr.") {
+		return arr(SInt, Sort(name[4:])) // cells of pointers to basic types: Ptr.Bool, Ptr.Str, Ptr.Int
+	}
 	if k > 0 {
-		if obj, ok := u.Pkg.Types.Scope().Lookup(name[:k]).(*types.TypeName); ok {
+		if obj := u.lookupTypeName(name[:k]); obj != nil {
 			if st, ok := obj.Type().Underlying().(*types.Struct); ok {
 				for i := 0; i < st.NumFields(); i++ {
 					if st.Field(i).Name() == name[k+1:] {
@@ -579,12 +644,28 @@ func (u *Unit) defPredAxioms() string {
 		for _, r := range sf.Reads {
 			cs := u.cellSortByName(r)
 			b := sym(r + "!d")
-			pre := "H!"
-			if _, ok := u.CS.GhostFields[r]; ok {
-				pre = "G!"
+			cell := "H!" + r
+			switch {
+			case strings.HasPrefix(r, "Elems."):
+				cell = "E!" + r[6:]
+			case strings.HasPrefix(r, "MapDom."):
+				cell = "MD!" + r[7:]
+			case strings.HasPrefix(r, "MapVal."):
+				cell = "MV!" + r[7:]
+			default:
+				if _, ok := u.CS.GhostFields[r]; ok {
+					cell = "G!" + r
+				}
 			}
-			st.vals[pre+r] = b
-			fv.cellSort[pre+r] = cs
+			st.vals[cell] = b
+			fv.cellSort[cell] = cs
+			if strings.HasPrefix(r, "MapDom.") {
+				if u.mapKeySort == nil {
+					u.mapKeySort = map[string]Sort{}
+				}
+				kv := r[7:]
+				u.mapKeySort[kv] = Sort(kv[:strings.Index(kv, "!")])
+			}
 			binds = append(binds, fmt.Sprintf("(%s %s)", b, cs))
 			args = append(args, b)
 		}
